@@ -40,6 +40,8 @@ class Disp(object):
         self.jit = []         # jitter values served
         self.order = []       # ("W", OutPkt) / ("TN", tid) / ("CB", ...) / ("F", ...) in order
         self.desync = False
+        self.coarse = False       # multi-packet chunk whose internal order is unknown
+        self.unprocessed = []
 
     def effect_free(self):
         return not (self.raw_writes or self.timers_new or self.timers_cancel or self.fires
@@ -129,6 +131,8 @@ class Req(object):
         self.nested = False
         self.tag = None
         self.qos = None
+        self.refusal = None
+        self.ret_state = None
 
     @property
     def pending(self):
